@@ -24,13 +24,31 @@ pub const MULASSIGN_TAGS: &[&str] = &[
 pub const NEGADD_TAGS: &[&str] =
     &["p0", "p1", "p2", "p3", "p4", "p5", "p6", "p7", "p8", "i0", "i1", "i2", "i3", "i4", "i5", "i6", "i7", "i8", "q4"];
 
+/// a size: usually `lo + below(span)`, but one case in twelve is LONG (33..160): code paths that only exist for large
+/// inputs (a different search strategy above a length threshold, chunked evaluation, ...) are otherwise never run
+fn size(r: &mut Rng, lo: usize, span: u64) -> usize {
+    if r.chance(1, 12) {
+        33 + r.below(128) as usize
+    } else {
+        lo + r.below(span) as usize
+    }
+}
+
+fn ncls(n: usize, cap: usize) -> String {
+    if n > 32 {
+        "long".to_string()
+    } else {
+        n.min(cap).to_string()
+    }
+}
+
 fn is_logish(tag: &str) -> bool {
     tag.starts_with('l') || tag.starts_with('i') || tag == "q4"
 }
 
 fn nums_for(r: &mut Rng, tag: &str, style: u64) -> (Vec<f64>, String) {
     let n = match tag_len(tag) {
-        usize::MAX => r.below(13) as usize,
+        usize::MAX => size(r, 0, 13),
         n => n,
     };
     let mut v = Vec::with_capacity(n);
@@ -78,7 +96,13 @@ fn piece(r: &mut Rng, tag: &str) -> Vec<f64> {
 
 /// positive argument for log forms
 fn pos_arg(r: &mut Rng) -> (f64, &'static str) {
-    match r.below(8) {
+    match r.below(10) {
+        8 | 9 => {
+            // |ln v| log-uniform from 1e-9 to 3: every decade of the series branch of the exponential tail
+            let e = -9.0 + r.unit() * 9.5;
+            let x = (10.0f64).powf(e) * if r.chance(1, 2) { 1.0 } else { -1.0 };
+            ((-x).exp(), "log-uniform-near-one")
+        }
         0 => (1.0, "one"),
         1 => (next_up(1.0), "one+ulp"),
         2 => (next_down(1.0), "one-ulp"),
@@ -134,7 +158,7 @@ pub fn gen_case(campaign: &str, r: &mut Rng) -> Case {
             let style = r.below(5);
             let (p, sname) = nums_for(r, tag, style);
             let (x, cx) = if style == 0 { (gen_cls(r, Cls::SmallInt), Cls::SmallInt) } else { moderate(r) };
-            let mut c = Case::new("eval", tag).set("p", Val::L(p.clone())).set("x", Val::F(x)).cls(&format!("{tag}:{sname}:{cx:?}"));
+            let mut c = Case::new("eval", tag).set("p", Val::L(p.clone())).set("x", Val::F(x)).cls(&format!("{tag}:{sname}:{cx:?}{}", if p.len() > 32 { ":long" } else { "" }));
             c.nontrivial = p.len() >= 2 && x != 0.0 && p.iter().filter(|v| **v != 0.0).count() >= 2;
             c
         }
@@ -149,7 +173,7 @@ pub fn gen_case(campaign: &str, r: &mut Rng) -> Case {
         }
         "pweval" => {
             let tag = *r.pick(&["p0", "p0", "p0", "p1", "p3", "pn", "q4", "l2", "i3"]);
-            let n = 1 + r.below(12) as usize;
+            let n = size(r, 1, 12);
             let pw = pw_pieces(r, tag, n, is_logish(tag), true);
             let ends: Vec<f64> = pw.iter().map(|s| s.0).collect();
             let x = if r.chance(1, 40) { f64::NAN } else if is_logish(tag) { ends[r.below(n as u64) as usize].max(0.01) * *r.pick(&[1.0, 0.999, 1.001, 0.5, 2.0]) } else { query_near(r, &ends) };
@@ -158,16 +182,16 @@ pub fn gen_case(campaign: &str, r: &mut Rng) -> Case {
             let mut c = Case::new("pweval", tag)
                 .set("pw", Val::Pw(pw))
                 .set("x", Val::F(x))
-                .cls(&format!("{tag}:n={}:dup={}:hit={}", n.min(4), dup, hit));
+                .cls(&format!("{tag}:n={}:dup={}:hit={}", ncls(n, 4), dup, hit));
             c.nontrivial = n >= 2;
             c
         }
         "evaluator" | "evaluator-nan" => {
             let tag = *r.pick(&["p0", "p0", "p0", "p1", "p3", "q4"]);
-            let n = 1 + r.below(9) as usize;
+            let n = size(r, 1, 9);
             let pw = pw_pieces(r, tag, n, tag == "q4", true);
             let ends: Vec<f64> = pw.iter().map(|s| s.0).collect();
-            let cap = if r.chance(1, 10) { 64 } else { 12 };
+            let cap = if tag == "q4" { 12 } else if r.chance(1, 10) || n > 32 { 64 } else { 12 };
             let len = 1 + r.below(cap) as usize;
             let with_nan = campaign == "evaluator-nan";
             let mut xs = Vec::with_capacity(len);
@@ -195,16 +219,16 @@ pub fn gen_case(campaign: &str, r: &mut Rng) -> Case {
             let mut c = Case::new("evaluator", tag)
                 .set("pw", Val::Pw(pw))
                 .set("xs", Val::L(xs.clone()))
-                .cls(&format!("{tag}:n={}:fwd={}:bwd={}:nan={}", n.min(4), fwd.min(3), bwd.min(3), xs.iter().any(|x| x.is_nan())));
+                .cls(&format!("{tag}:n={}:fwd={}:bwd={}:nan={}", ncls(n, 4), fwd.min(3), bwd.min(3), xs.iter().any(|x| x.is_nan())));
             c.nontrivial = n >= 2 && fwd >= 1 && bwd >= 1;
             c
         }
         "evalv" => {
             let tag = *r.pick(&["p0", "p0", "p1", "p3", "q4"]);
-            let n = 1 + r.below(9) as usize;
+            let n = size(r, 1, 9);
             let pw = pw_pieces(r, tag, n, tag == "q4", true);
             let ends: Vec<f64> = pw.iter().map(|s| s.0).collect();
-            let len = r.below(16) as usize;
+            let len = if n > 32 && tag != "q4" { r.below(64) as usize } else { r.below(16) as usize };
             let mut xs: Vec<f64> = (0..len)
                 .map(|_| if tag == "q4" { ends[r.below(n as u64) as usize].max(0.01) * *r.pick(&[1.0, 0.999, 1.001, 0.5, 2.0]) } else { query_near(r, &ends) })
                 .collect();
@@ -218,13 +242,13 @@ pub fn gen_case(campaign: &str, r: &mut Rng) -> Case {
             let mut c = Case::new("evalv", tag)
                 .set("pw", Val::Pw(pw))
                 .set("xs", Val::L(xs.clone()))
-                .cls(&format!("{tag}:n={}:len={}:sorted={}", n.min(4), len.min(4), sorted));
+                .cls(&format!("{tag}:n={}:len={}:sorted={}", ncls(n, 4), len.min(4), sorted));
             c.nontrivial = n >= 2 && len >= 2;
             c
         }
         "merge" | "merge-reject" => {
-            let nf = 1 + r.below(6) as usize;
-            let ng = 1 + r.below(6) as usize;
+            let nf = size(r, 1, 6);
+            let ng = if nf > 32 && r.chance(1, 2) { 1 + r.below(6) as usize } else { size(r, 1, 6) };
             let style = r.below(5);
             // index-revealing pieces: k of f's i-th piece = i+1, of g's j-th piece = 1000(j+1)
             let mk = |ends: &[f64], scale: f64, r: &mut Rng, reveal: bool| -> Pw {
@@ -291,7 +315,7 @@ pub fn gen_case(campaign: &str, r: &mut Rng) -> Case {
                 .set("op", Val::S(op.into()))
                 .set("f", Val::Pw(f))
                 .set("g", Val::Pw(g))
-                .cls(&format!("{op}:{cls}"));
+                .cls(&format!("{op}:{cls}{}", if nf > 32 || ng > 32 { ":long" } else { "" }));
             c.nontrivial = nf >= 2 && ng >= 2;
             c
         }
@@ -356,6 +380,47 @@ pub fn gen_case(campaign: &str, r: &mut Rng) -> Case {
             c.nontrivial = p.iter().any(|v| *v != 0.0);
             c
         }
+        "ops-probe" => {
+            // every operator impl that EXISTS in the crate as built now (auto-ref probe), checked number by number
+            let (mut op, mut tag) = ("mul", "p0");
+            for _ in 0..200 {
+                op = *r.pick(crate::probe::PROBE_OPS);
+                tag = *r.pick(ALL_TAGS);
+                if crate::run::op_exists(tag, op) {
+                    break;
+                }
+            }
+            let p = piece(r, tag);
+            let mut c = Case::new("opsraw", tag).set("op", Val::S(op.into())).set("p", Val::L(p.clone()));
+            let mut cl = format!("{op}:{tag}");
+            match op {
+                "mul" | "mulassign" => {
+                    let (s, cs) = match r.below(6) {
+                        0 => (0.0, "zero"),
+                        1 => (-1.0, "minus-one"),
+                        2 => (gen_cls(r, Cls::Tiny), "tiny"),
+                        3 => (gen_cls(r, Cls::Huge), "huge"),
+                        _ => (moderate(r).0, "moderate"),
+                    };
+                    cl.push_str(&format!(":{cs}"));
+                    c = c.set("s", Val::F(s));
+                }
+                "neg" => {}
+                _ => {
+                    let mut q = piece(r, tag);
+                    if tag == "pn" {
+                        q.resize(p.len(), 1.0);
+                    }
+                    if r.chance(1, 5) {
+                        q = p.iter().map(|v| if op.starts_with("sub") { *v } else { -*v }).collect(); // exact cancellation
+                    }
+                    c = c.set("q", Val::L(q));
+                }
+            }
+            let mut c = c.cls(&cl);
+            c.nontrivial = p.iter().any(|v| *v != 0.0);
+            c
+        }
         "pwops" => {
             let op = *r.pick(&[
                 "pwmul", "segmul", "pwmulassign", "segmulassign", "pwneg", "pwtranslate", "segtranslate", "pwderiv", "segderiv",
@@ -368,7 +433,7 @@ pub fn gen_case(campaign: &str, r: &mut Rng) -> Case {
                 _ => *r.pick(ALL_TAGS),
             };
             let seg_only = op.starts_with("seg");
-            let n = if seg_only { 1 } else { r.below(8) as usize };
+            let n = if seg_only { 1 } else { size(r, 0, 8) };
             let pw = pw_pieces(r, tag, n, false, false);
             let mut c = Case::new(op, tag).set("pw", Val::Pw(pw));
             if op.contains("mul") {
@@ -378,7 +443,7 @@ pub fn gen_case(campaign: &str, r: &mut Rng) -> Case {
                 let v = if r.chance(1, 4) { moderate(r).0 * (2.0f64).powi(-(r.range(50, 90) as i32)) } else { moderate(r).0 };
                 c = c.set("v", Val::F(v));
             }
-            let mut c = c.cls(&format!("{op}:{tag}:n={}", n.min(3)));
+            let mut c = c.cls(&format!("{op}:{tag}:n={}", ncls(n, 3)));
             c.nontrivial = n >= 1;
             c
         }
@@ -386,21 +451,21 @@ pub fn gen_case(campaign: &str, r: &mut Rng) -> Case {
             let op = *r.pick(&["pwintegral", "pwintegral", "pwindef", "integraliter", "segintegral", "segindef"]);
             let tag = *r.pick(INTEG_TAGS);
             let seg_only = op.starts_with("seg");
-            let n = if seg_only { 1 } else { r.below(9) as usize };
+            let n = if seg_only { 1 } else { size(r, 0, 9) };
             let pw = pw_pieces(r, tag, n, is_logish(tag), false);
             let mut c = Case::new(op, tag).set("pw", Val::Pw(pw.clone()));
             if op != "pwindef" && op != "segindef" {
                 let kx = if is_logish(tag) { pos_arg(r).0 } else if n > 0 && r.chance(1, 2) { pw[0].0 - 0.5 } else if n > 0 && r.chance(1, 2) { pw[0].0 + 1.5 } else { moderate(r).0 };
                 c = c.set("k", Val::L(vec![kx, moderate(r).0]));
             }
-            let mut c = c.cls(&format!("{op}:{tag}:n={}", n.min(3)));
+            let mut c = c.cls(&format!("{op}:{tag}:n={}", ncls(n, 3)));
             c.nontrivial = n >= 2;
             c
         }
         "linear" => {
             let n = match r.below(10) {
                 0 => r.below(2) as usize, // rejections
-                _ => 2 + r.below(12) as usize,
+                _ => size(r, 2, 12),
             };
             let style = r.below(5);
             let mut x = moderate(r).0;
@@ -422,14 +487,14 @@ pub fn gen_case(campaign: &str, r: &mut Rng) -> Case {
                 }
                 ks.push((x, moderate(r).0));
             }
-            let mut c = Case::new("linear", "p1").set("knots", Val::Knots(ks)).cls(&format!("style={style}:n={}", n.min(4)));
+            let mut c = Case::new("linear", "p1").set("knots", Val::Knots(ks)).cls(&format!("style={style}:n={}", ncls(n, 4)));
             c.nontrivial = n >= 3;
             c
         }
         "spline" => {
             let n = match r.below(10) {
                 0 => r.below(3) as usize,
-                _ => 3 + r.below(12) as usize,
+                _ => size(r, 3, 12),
             };
             let style = r.below(8);
             let yscale = match style {
@@ -462,7 +527,7 @@ pub fn gen_case(campaign: &str, r: &mut Rng) -> Case {
                 }
                 ks.push((x, yy));
             }
-            let mut c = Case::new("spline", "p3").set("knots", Val::Knots(ks)).cls(&format!("style={style}:n={}", n.min(5)));
+            let mut c = Case::new("spline", "p3").set("knots", Val::Knots(ks)).cls(&format!("style={style}:n={}", ncls(n, 5)));
             c.nontrivial = n >= 4;
             c
         }
@@ -543,7 +608,10 @@ pub fn gen_case(campaign: &str, r: &mut Rng) -> Case {
                         _ => q = piece(r, tag),
                     }
                 }
-                if tag == "pn" && r.chance(1, 4) {
+                if tag == "pn" && r.chance(1, 3) {
+                    if r.chance(1, 2) {
+                        q = p.clone(); // equal up to trailing zeros only
+                    }
                     q.push(0.0); // different lengths
                 }
                 let mut c = Case::new(if rel { "releq" } else { "absdiff" }, tag)
